@@ -522,6 +522,63 @@ class FnRewriter:
             k -= 1
         raise Undecided('%s: no enclosing block for loop %d' % (self.fnkey, n))
 
+    def find_block_of_field(self, name):
+        """R7c: (open, close) of the brace block in `NAME: { .. }` (struct-literal field initialiser)."""
+        toks = self.sf.toks
+        hits = []
+        sig = [j for j in range(self.bo + 1, self.e) if toks[j].kind not in ('ws', 'comment')]
+        for a in range(len(sig) - 2):
+            t0, t1, t2 = toks[sig[a]], toks[sig[a + 1]], toks[sig[a + 2]]
+            if (t0.kind == 'ident' and t0.text == name and t1.text == ':' and t2.text == '{'
+                    and (a == 0 or toks[sig[a - 1]].text not in (':', '.'))):
+                hits.append(sig[a + 2])
+        if len(hits) != 1:
+            raise Undecided('%s: expected exactly one field initialiser block `%s: {`, found %d'
+                            % (self.fnkey, name, len(hits)))
+        return hits[0], match_close(toks, hits[0])
+
+    def find_block_of_if_let(self, scrutinee):
+        """R7c: (open, close) of the body block of `if let PAT = SCRUTINEE {`."""
+        toks = self.sf.toks
+        want = re.sub(r'\s+', '', scrutinee)
+        hits = []
+        j = self.bo + 1
+        while j < self.e:
+            t = toks[j]
+            if t.kind == 'ident' and t.text == 'if':
+                k = j + 1
+                while toks[k].kind in ('ws', 'comment'):
+                    k += 1
+                if toks[k].kind == 'ident' and toks[k].text == 'let':
+                    # find '=' at depth 0, then the body '{'
+                    q = k + 1
+                    eq = None
+                    while q < self.e:
+                        tq = toks[q]
+                        if tq.kind == 'punct' and tq.text in '([':
+                            q = match_close(toks, q) + 1
+                            continue
+                        if tq.kind == 'punct' and tq.text == '=' and toks[q + 1].text != '=':
+                            eq = q
+                            break
+                        if tq.kind == 'punct' and tq.text == '{':
+                            break
+                        q += 1
+                    if eq is not None:
+                        b = eq + 1
+                        while b < self.e and not (toks[b].kind == 'punct' and toks[b].text == '{'):
+                            if toks[b].kind == 'punct' and toks[b].text in '([':
+                                b = match_close(toks, b)
+                            b += 1
+                        text = ''.join(x.text for x in toks[eq + 1:b] if x.kind not in ('ws', 'comment'))
+                        if text == want:
+                            hits.append(b)
+            j += 1
+        if len(hits) != 1:
+            raise Undecided('%s: expected exactly one `if let .. = %s {`, found %d'
+                            % (self.fnkey, scrutinee, len(hits)))
+        return hits[0], match_close(toks, hits[0])
+
     def find_closure(self, n):
         """R7: (start_tok, body_open, body_close) of the n-th closure literal of this fn
         (textual order, same counting as the `closure` overlay anchors); block bodies only."""
@@ -1103,15 +1160,17 @@ class FnRewriter:
                 n = self._closure_no
                 if overlay_piece:
                     # named closure anchor: `RECV.METHOD(|..| ..)` -- the callee's name and a per-name ordinal
+                    # (looks left of `lo` on purpose: inside a recursive emission, e.g. the argument list of an
+                    # R20 clocked call, `lo` is the token after the `(`)
                     pk = j - 1
-                    while pk >= lo and toks[pk].kind in ('ws', 'comment'):
+                    while pk >= 0 and toks[pk].kind in ('ws', 'comment'):
                         pk -= 1
                     callee = None
-                    if pk >= lo and toks[pk].kind == 'punct' and toks[pk].text == '(':
+                    if pk >= 0 and toks[pk].kind == 'punct' and toks[pk].text == '(':
                         pk -= 1
-                        while pk >= lo and toks[pk].kind in ('ws', 'comment'):
+                        while pk >= 0 and toks[pk].kind in ('ws', 'comment'):
                             pk -= 1
-                        if pk >= lo and toks[pk].kind == 'ident':
+                        if pk >= 0 and toks[pk].kind == 'ident':
                             callee = toks[pk].text
                     if callee is not None:
                         cnt = self.__dict__.setdefault('_closure_by_callee', {})
@@ -2161,6 +2220,26 @@ def build(unit_dir, repo, canary=False):
                 open_impl = header
             lifted = None
             wrap = None
+            if 'block_of_field' in it or 'block_of_if_let' in it:
+                # R7c block-lift by name: the brace block that initialises the struct-literal field NAME
+                # (`NAME: { .. }`), resp. the body block of the `if let PAT = SCRUTINEE { .. }` whose scrutinee
+                # text (whitespace removed) is SCRUTINEE, becomes a fn.  Exactly one match is required.
+                if 'sig' not in it or 'key' not in it:
+                    raise Undecided('block item needs "sig" and "key": %r' % it)
+                fr = FnRewriter(sf, fn_item, fnkey, None, unit, [])
+                if 'block_of_field' in it:
+                    cbo, ce = fr.find_block_of_field(it['block_of_field'])
+                    what = 'initialiser block of field `%s`' % it['block_of_field']
+                else:
+                    cbo, ce = fr.find_block_of_if_let(it['block_of_if_let'])
+                    what = 'body of `if let .. = %s`' % it['block_of_if_let']
+                fn_item = ('fn', it['key'], cbo, ce, cbo)
+                lifted = it['sig']
+                wrap = it.get('wrap')
+                log.append({'rule': 'R7c', 'fn': fnkey, 'line': sf.line_of(sf.toks[cbo].start),
+                            'what': '%s of %s::%s lifted to `%s`%s' % (
+                                what, it.get('impl', ''), it['fn'], it['sig'],
+                                (' with its value wrapped as %s<block>%s' % tuple(wrap)) if wrap else '')})
             if 'block_of_loop' in it:
                 # R7b block-lift: the brace block enclosing the n-th loop of the function becomes a fn
                 if 'sig' not in it or 'key' not in it:
